@@ -89,6 +89,10 @@ def _gen_panel(rng, tier, profile):
       continue
     values.append([round(size * t * (1 + rng.gauss(0, noise)) +
                          rng.gauss(0, noise), 3) for t in trend])
+  if rng.random() < 0.15 and n_geos >= 3:
+    # twin geos: identical series, so distinct designs tie exactly in score
+    a, b = rng.sample(range(n_geos), 2)
+    values[b] = list(values[a])
   missing = []
   if rng.random() < 0.15:
     for _ in range(rng.randrange(1, 4)):
